@@ -248,9 +248,18 @@ pub fn bounds(tier: Tier) -> Bounds {
     }
 }
 
+/// forest shapes whose topology cases are enumerated one shape at a time (sizes above 4)
+pub fn c01_late_forests(b: &Bounds) -> Vec<Vec<Option<usize>>> {
+    let mut out = Vec::new();
+    for n in 5..=b.topo_nodes {
+        out.extend(crate::plan::forests(n));
+    }
+    out
+}
+
 pub fn c01_cases(b: &Bounds) -> Vec<CaseDesc> {
     let mut cases = value_cases(Codec::Binary, &crate::vals::binary_types(), b.k3, b.large);
-    cases.extend(topo_cases(b.topo_nodes, b.topo_classes));
+    cases.extend(topo_cases(b.topo_nodes.min(4), b.topo_classes));
     cases.extend(crate::codec::service_topo_cases(b.topo_nodes));
     for l in crate::vals::text_alphabet(b.large) {
         cases.push(CaseDesc::Name { label: l.0 });
@@ -291,6 +300,21 @@ pub fn check_c01(run: &Run) -> Value {
             out.samples.push(serde_json::to_string(desc).unwrap());
         }
     });
+    for parents in c01_late_forests(&b) {
+        let chunk = crate::codec::topo_cases_for_forest(&parents, b.topo_classes);
+        let o = run_cases(&chunk, &|_, desc, out| {
+            out.nontrivial += 1;
+            for c in Compression::all() {
+                out.executions += 1;
+                let (o, vs) = judge_binary(desc, c);
+                out.outcome(if o.starts_with("encode-err") { "encode-err (outside domain)" } else { &o });
+                for (key, what) in vs {
+                    out.violation(key, what, || serde_json::to_value(BinReplay { desc: desc.clone(), compression: c }).unwrap());
+                }
+            }
+        });
+        total.merge(o);
+    }
     let (c0, e0) = (total.cases, total.executions);
     let scalar = crate::scalar::sweep(run, crate::scalar::Which::RoundTrip, &mut total);
     total.report(run);
